@@ -92,6 +92,14 @@ impl ServerInvTsx {
             CodeKind::Provisional | CodeKind::Success
         ));
 
+        // send the response right away, retransmissions are only needed for unreliable transports
+        self.registration
+            .endpoint
+            .send_outgoing_response(&mut response)
+            .await?;
+
+        let reliable = response.parts.transport.reliable();
+
         // after this instant is over the tsx will time out
         let abandon_retransmit = Instant::now() + T1 * 64;
 
@@ -134,10 +142,12 @@ impl ServerInvTsx {
                     }
 
                     // do the retransmit
-                    self.registration
-                        .endpoint
-                        .send_outgoing_response(&mut response)
-                        .await?;
+                    if !reliable {
+                        self.registration
+                            .endpoint
+                            .send_outgoing_response(&mut response)
+                            .await?;
+                    }
 
                     // increase the wait time until next retransmit
                     retransmit_delta = (retransmit_delta * 2).min(T2);
